@@ -474,12 +474,34 @@ fn assembled(rep: &Reporter, n: usize) {
         intermolecular_ineffective_collision: mutation::UniformMutation::new_bound(1.),
         constraints,
     };
+    /// Between two phases something else trims the population (a replacement, a restart keeping the best few).
+    #[derive(Clone, serde::Serialize)]
+    struct KeepFirst(usize);
+    impl Component<Real> for KeepFirst {
+        fn execute(&self, _p: &Real, state: &mut State<Real>) -> mahf::ExecResult<()> {
+            state.populations_mut().current_mut().truncate(self.0);
+            Ok(())
+        }
+    }
     let mut rng = mv::SplitMix64::new(rep.seed).fork(0xC20_A);
     for k in 0..n {
         let problem = Real::new(1 + rng.usize(3), -2.0, 3.0, *rng.pick(&[RealFn::Sphere, RealFn::Rastrigin, RealFn::ShiftedSphere]));
         let size = 2 + rng.below(6) as u32;
         let seed = rng.below(1 << 40);
-        let (kind, cfg): (&str, Configuration<Real>) = if k % 2 == 0 {
+        let (kind, cfg): (&str, Configuration<Real>) = if k % 3 == 2 {
+            // two phases with the population trimmed in between: the second phase starts from one record per remaining individual
+            (
+                "phases-with-a-trimmed-population",
+                Configuration::builder()
+                    .do_(initialization::RandomSpread::new(size + 3))
+                    .evaluate()
+                    .update_best_individual()
+                    .while_(LessThanN::iterations(40), |b| {
+                        b.do_(cro::cro::<Real, Global>(params(10.0, 5.0, boundary::Saturation::new()), RandomChance::new(0.7))).do_(Box::new(KeepFirst(1 + (k / 3) % 3)) as Box<dyn Component<Real>>)
+                    })
+                    .build(),
+            )
+        } else if k % 3 == 0 {
             (
                 "epochs",
                 Configuration::builder()
@@ -521,7 +543,7 @@ fn assembled(rep: &Reporter, n: usize) {
 
 fn main() {
     let rep = Reporter::from_args("C20");
-    rep.rule("(a) each of the four reaction updates on prepared three-population states (a main population of 5 molecules with unique kinetic energies as fingerprints, optionally containing an identical twin of a reactant, or an individual with a reactant's solution but another objective value; reactant and product populations on top) over reactant/product objective values {-5,0,.5,3,40}^2 x kinetic energies {0,.1,5,100} x buffers {0,1,1000} x seeds; (b) every reaction update of real_cro runs and of harness-assembled systems (the generic cro loop as the body of an outer loop, so that its initialisation executes again every epoch; a second reaction system run to completion inside a scope in the middle of the outer one's reactions; records per scope depth) observed at the step-observer hook; between two updates of a system its population, records and buffer are bit-identical and aligned. Per update: sum of objective values + kinetic energies + buffer unchanged within 1e-9 relative, no negative kinetic energy or buffer, one molecule record per individual with record i belonging to individual i (best memory never worse than the individual; in (a) also which slot was replaced / appended / removed and that records of uninvolved molecules did not move), stack height reduced by exactly two also when the reaction is rejected; in (a) acceptance as the energies dictate. distinct_nontrivial = distinct prepared cells + distinct template runs");
+    rep.rule("(a) each of the four reaction updates on prepared three-population states (a main population of 5 molecules with unique kinetic energies as fingerprints, optionally containing an identical twin of a reactant, or an individual with a reactant's solution but another objective value; reactant and product populations on top) over reactant/product objective values {-5,0,.5,3,40}^2 x kinetic energies {0,.1,5,100} x buffers {0,1,1000} x seeds; (b) every reaction update of real_cro runs and of harness-assembled systems (the generic cro loop as the body of an outer loop, so that its initialisation executes again every epoch, also with the population trimmed between the phases; a second reaction system run to completion inside a scope in the middle of the outer one's reactions; records per scope depth) observed at the step-observer hook; between two updates of a system its population, records and buffer are bit-identical and aligned. Per update: sum of objective values + kinetic energies + buffer unchanged within 1e-9 relative, no negative kinetic energy or buffer, one molecule record per individual with record i belonging to individual i (best memory never worse than the individual; in (a) also which slot was replaced / appended / removed and that records of uninvolved molecules did not move), stack height reduced by exactly two also when the reaction is rejected; in (a) acceptance as the energies dictate. distinct_nontrivial = distinct prepared cells + distinct template runs");
     rep.assume("finite objective values; the main population is the third population from the top when an update starts");
     prepared(&rep);
     prepared_at_the_rounding_limit(&rep);
